@@ -65,7 +65,7 @@ GroupFails(e) ==
     ELSE F(canon = Obs(e), e, "C07", "a spelling of the same secret is treated differently from the canonical spelling")
 
 PropIds == {"C01", "C02", "C03", "C04", "C05", "C06", "C07", "C08", "C10", "C11", "C12", "C13", "C14",
-            "C15", "C16", "C17", "INC"}
+            "C15", "C16", "C17", "INC", "NONE"}
 
 (* ---- C11: a call made concurrently returns exactly what it returns when called alone ---- *)
 (* e.plan > 0: index of the call in the workload plan; e.phase = "solo" (the plan executed    *)
